@@ -252,7 +252,7 @@ func ruleReplacementAccumulates(c *Ctx, rule string) {
 			}
 		})
 	}
-	r.Floor(rule, "stores to ReplacerState.match.Replacement", n, 2)
+	r.Floor(rule, "stores to ReplacerState.match.Replacement", n, 1)
 	// who writes Match fields at all
 	w := c.fieldWriters("Match")
 	for _, f := range sortedKeys(w) {
@@ -283,14 +283,22 @@ func ruleReplacementAccumulates(c *Ctx, rule string) {
 // rulePerMatchReplacer implements C05.R3/R4.
 func rulePerMatchReplacer(c *Ctx, rule string) {
 	r := c.R
-	sr := c.Fn("engine", "searchReplace")
 	init := c.Fn("engine", "InitReplacerState")
 	ex := c.Fn("engine", "executeReplace")
-	if sr == nil || init == nil || ex == nil {
-		r.Ob(rule, "anchor engine.searchReplace/InitReplacerState/executeReplace", "").Und("not found")
+	if init == nil || ex == nil {
+		r.Ob(rule, "anchor engine.InitReplacerState/executeReplace", "").Und("not found")
 		return
 	}
-	ob := r.Ob(rule, "searchReplace: every match gets its own replacer state", c.pos(sr.Pos()))
+	// by role: the function that runs the replacer program (calls executeReplace)
+	var sr *ssa.Function
+	for _, f := range c.callersIn("engine", ex) {
+		sr = f
+	}
+	if sr == nil {
+		r.Ob(rule, "anchor: the function that runs the replacer program", "").Und("no function of package engine calls executeReplace")
+		return
+	}
+	ob := r.Ob(rule, "replace: every match gets its own replacer state", c.pos(sr.Pos()))
 	var inits []*ssa.Call
 	var exec *ssa.Call
 	instrsOf(sr, func(in ssa.Instruction) {
@@ -305,9 +313,9 @@ func rulePerMatchReplacer(c *Ctx, rule string) {
 	})
 	switch {
 	case exec == nil:
-		ob.Und("searchReplace does not call executeReplace")
+		ob.Und("no call to executeReplace")
 	case len(inits) != 1:
-		ob.Bad(fmt.Sprintf("InitReplacerState is called %d time(s) in searchReplace; expected once per match", len(inits)))
+		ob.Bad(fmt.Sprintf("InitReplacerState is called %d time(s) in %s; expected once per match", len(inits), fnName(sr)))
 	default:
 		ini := inits[0]
 		ob.Pos = c.pos(ini.Pos())
@@ -338,7 +346,7 @@ func rulePerMatchReplacer(c *Ctx, rule string) {
 		}
 	}
 	// what is appended is the state's match
-	ob2 := r.Ob(rule, "searchReplace: the result of a match is the replacer state's match", c.pos(sr.Pos()))
+	ob2 := r.Ob(rule, "replace: the result of a match is the replacer state's match", c.pos(sr.Pos()))
 	okApp := false
 	instrsOf(sr, func(in ssa.Instruction) {
 		if call, ok := in.(*ssa.Call); ok {
@@ -455,17 +463,28 @@ func ruleItemKinds(c *Ctx, rule string) {
 	cds := NewPostDom(wv).ControlDeps()
 	var conds []string
 	n := 0
+	writers := c.fieldWriters("Match")["Replacement"]
 	instrsOf(wv, func(in ssa.Instruction) {
+		appendSite := false
 		if st, ok := in.(*ssa.Store); ok && strings.HasSuffix(exprStr(st.Addr), ".match.Replacement") {
+			appendSite = true
+		}
+		// or a call, on the same replacer state, of a primitive that appends to the replacement (WRITESTRING)
+		if call, ok := in.(*ssa.Call); ok {
+			if sc := call.Call.StaticCallee(); sc != nil && writers[fnName(sc)] && len(call.Call.Args) > 0 && call.Call.Args[0] == ssa.Value(wv.Params[0]) {
+				appendSite = true
+			}
+		}
+		if appendSite {
 			n++
-			for _, l := range condsOf(cds, st.Block()) {
+			for _, l := range condsOf(cds, in.Block()) {
 				conds = append(conds, l.String())
 			}
 		}
 	})
 	sort.Strings(conds)
-	got := strings.Join(conds, " && ")
+	got := strings.Join(uniq(conds), " && ")
 	want := "(rs.variables.Get(name)#0.getType() == 0) && rs.variables.Get(name)#1"
-	ob2.Check(n == 1 && got == want, "one store under ["+got+"]", fmt.Sprintf("%d store(s) under [%s]; expected one store under [%s] (found && string-typed)", n, got, want))
+	ob2.Check(n == 1 && got == want, "one append under ["+got+"]", fmt.Sprintf("%d append(s) to the replacement under [%s]; expected one under [%s] (found && string-typed)", n, got, want))
 	ob2.Nontrivial = true
 }
